@@ -11,7 +11,7 @@ from testtools.testresult.real import ExtendedToStreamDecorator
 from .program import (
     Cfg, Env, Model, build_case, gen_program, jsonable, FAILING,
 )
-from .targets import World, make_target, OUTCOMES, snap_details, snap_err, Event, test_id_of
+from .targets import World, make_target, OUTCOMES, snap_details, snap_err, Event, test_id_of, _Base as _TargetBase
 from .tape import digest_of
 
 FLAVOURS = ("extended", "testtools", "2.7", "2.6", "twisted", "stream", "none")
@@ -184,6 +184,8 @@ def simulate(prog, flavour, nruns=1, run_test_with=None, runner="plain"):
         else:
             target = make_target(flavour, world)
             result = target
+        if prog.get("falsy_result") and isinstance(target, _TargetBase):
+            target._falsy = True
         import signal as _signal
         saved_sig = None
         if reactor is not None:
@@ -360,6 +362,10 @@ def oracle_outcome(sim, rr, out):
         # the bracket is C01's business, but a success reported although something raised is ours
         if "success" in kinds and not nothing and sim.flavour != "2.6":
             out.violate("success-but-raised", "one-of-several-outcomes", f"outcomes {kinds}; raised {[r.as_list() for r in m.R]} force={m.force}")
+        if not kinds and not nothing and rr.was_successful is True and sim.flavour in ("testtools", "extended", "none"):
+            # nothing at all was reported: to the result that run is indistinguishable from a pass
+            out.violate("success-but-raised", "no-outcome;wasSuccessful-true",
+                        f"no outcome reported and wasSuccessful() is True; raised {[r.as_list() for r in m.R]} force={m.force}")
         return
     got = kinds[0]
     flavour = sim.flavour
